@@ -234,19 +234,14 @@ func ruleCL3(c *Ctx) *rule {
 		// (1) guard at the sink
 		for _, g := range fi.necessaryGuards(s.site.Block()) {
 			if c.relatesToRoot(g.cond, elems) {
-				other := edge{g.e.from, 1 - g.e.idx}
-				if ok, _ := c.edgeEndsInError(other); ok {
-					found = "guarded at the removal by " + condText(g.cond)
-				} else if g.e.from.Succs[1-g.e.idx] != nil {
-					// skipping the entry (continue) is also a refusal to delete it
-					found = "guarded at the removal by " + condText(g.cond)
-				}
+				// the other side ends in an error, or merely skips the entry: both refuse to delete it
+				found = "guarded at the removal by " + condText(g.cond)
 			}
 		}
 		// (2) validate-all pass over the same list
 		if found == "" && list != nil {
 			for _, l := range fi.loops {
-				if l.body[s.site.Block()] || !l.header.Dominates(s.site.Block()) {
+				if l.body[s.site.Block()] || !dominates(l.header, s.site.Block()) {
 					continue
 				}
 				// ranges over the same list
@@ -603,12 +598,13 @@ func ruleFX2(c *Ctx) *rule {
 		pres := ps.run(args[0])
 		ds := c.newSlicer()
 		ds.depth = 0
+		ds.objFlow = true
 		dres := ds.run(args[1])
 		var probs []string
 		if !pres.hasField("cli/app.Options.Spokfile") || len(pres.callNames()) > 0 {
 			probs = append(probs, "the path is not exactly Options.Spokfile")
 		}
-		if !dres.hasCall("(github.com/FollowTheProcess/spok/ast.Tree).String") || !dres.hasCall("(*github.com/FollowTheProcess/spok/parser.Parser).Parse") {
+		if !(dres.hasCall("(github.com/FollowTheProcess/spok/ast.Tree).String") || dres.hasCall("(github.com/FollowTheProcess/spok/ast.Tree).Write")) || !dres.hasCall("(*github.com/FollowTheProcess/spok/parser.Parser).Parse") {
 			probs = append(probs, "the data is not Tree.String() of the parsed tree")
 		}
 		// the parsed text was read from the same field
@@ -700,7 +696,7 @@ func ruleFX3(c *Ctx) *rule {
 			}
 		case "os.OpenFile":
 			fl, ok := constInt(m.site.Common().Args[1])
-			const oAppend, oTrunc = 0x400, 0x200
+			oAppend, oTrunc := osConst(c.Prog, "O_APPEND"), osConst(c.Prog, "O_TRUNC")
 			switch {
 			case !ok:
 				r.bad(key, c.ipos(m.site), "open flags are not constant")
@@ -733,37 +729,43 @@ func ruleFX3(c *Ctx) *rule {
 	return r
 }
 
+func isListingCond(cond map[string]bool) bool {
+	return cond["opt:Show=true"] || cond["opt:Variables=true"] || (cond["hastask:default=false"] && cond["notasks=true"])
+}
+
 func ruleFX4(c *Ctx) *rule {
-	r := &rule{ID: "FX4", Engine: "E1", Floor: 3,
-		Statement: "the functions called on the --show, --vars and no-task listing branches reach no file-mutating primitive at all",
+	r := &rule{ID: "FX4", Engine: "E1", Floor: 9,
+		Statement: "no file-mutating primitive call site has the conditions of a listing action (--show, --vars, or no task names without a default task) among its entry conditions, and nothing called on those branches reaches one",
 		Necessity: "listing must leave every file byte-identical"}
+	for _, m := range c.mutatingSites() {
+		cond := c.condsAt(m.site)
+		key := fmt.Sprintf("%s %s not-under-listing", fname(m.fn), m.callee)
+		if isListingCond(cond) {
+			r.bad(key, c.ipos(m.site), "a file-mutating primitive is executed on a listing branch: "+atomList(cond))
+		} else {
+			r.ok(key, c.ipos(m.site), "conditions "+atomList(cond))
+		}
+	}
 	appRun := c.method("cli/app", "App", "Run")
-	n := 0
 	for _, f := range c.ModFuncs {
 		if f != appRun && !c.reachesFn(appRun, f) {
 			continue
 		}
 		for _, site := range callSites(f) {
 			cond := c.condsAt(site)
-			listing := cond["opt:Show=true"] || cond["opt:Variables=true"] || (cond["hastask:default=false"] && cond["notasks=true"])
-			if !listing {
+			if !isListingCond(cond) {
 				continue
 			}
 			for _, callee := range c.callees(site) {
 				if !inModule(callee) {
 					continue
 				}
-				n++
 				key := fmt.Sprintf("%s -> %s [listing]", fname(f), fname(callee))
 				if c.reachesMutation(callee) {
 					r.bad(key, c.ipos(site), "a listing action reaches a file-mutating primitive through "+fname(callee))
 				} else {
 					r.ok(key, c.ipos(site), "no file mutation reachable; conditions "+atomList(cond))
 				}
-			}
-			if _, ok := isMutatingCall(site); ok {
-				n++
-				r.bad(fmt.Sprintf("%s %s [listing]", fname(f), calleeName(site.Common())), c.ipos(site), "a file-mutating primitive on a listing branch")
 			}
 		}
 	}
@@ -831,7 +833,7 @@ func ruleST1(c *Ctx) *rule {
 		}
 		for _, site := range callSites(f) {
 			name := calleeName(site.Common())
-			if !stdoutWriters[name] {
+			if !stdoutWriters[name] && !(streamWriters[name] && writesToOsStdout(site)) {
 				continue
 			}
 			n++
@@ -877,8 +879,28 @@ func ruleST1(c *Ctx) *rule {
 						}
 					}
 				}
+				if !okUse {
+					// or: the explicit writer of the guarded JSON print, e.g. fmt.Fprintln(os.Stdout, text)
+					for _, ref := range valueReferrers(u) {
+						uses := []ssa.Instruction{ref}
+						if mi, ok := ref.(*ssa.MakeInterface); ok {
+							uses = valueReferrers(mi)
+						}
+						for _, use := range uses {
+							site, ok := use.(ssa.CallInstruction)
+							if !ok || !streamWriters[calleeName(site.Common())] {
+								continue
+							}
+							ss := c.newSlicer()
+							ss.depth = 0
+							if c.condsAt(site)["opt:JSON=true"] && ss.run(site.Common().Args[1:]...).hasCall("(github.com/FollowTheProcess/spok/task.Results).JSON") {
+								okUse = true
+							}
+						}
+					}
+				}
 				if okUse {
-					r.ok(key, c.ipos(u), "only used to build the OS stream bundle")
+					r.ok(key, c.ipos(u), "only used to build the OS stream bundle / as the writer of the --json report")
 				} else {
 					r.bad(key, c.ipos(u), "os.Stdout is used directly, bypassing the stream that --quiet/--json silence")
 				}
@@ -969,7 +991,7 @@ func ruleST2(c *Ctx) *rule {
 			}
 			for _, callee := range c.callees(site) {
 				if inModule(callee) && readsTrans(callee) {
-					if !branch.Dominates(site.Block()) || site.Block() == branch {
+					if !dominates(branch, site.Block()) || site.Block() == branch {
 						// the early `return a.initialise()` style calls before the branch: only a problem if they read the stream
 						bad = "the call of " + fname(callee) + " at " + c.ipos(site) + " can use the stream before it is silenced"
 					}
@@ -986,7 +1008,7 @@ func ruleST2(c *Ctx) *rule {
 						}
 						isRead = true
 					}
-					if isRead && !branch.Dominates(b) {
+					if isRead && !dominates(branch, b) {
 						bad = "App.stream is read at " + c.ipos(in) + " before it is silenced"
 					}
 				}
@@ -1116,16 +1138,35 @@ var streamWriters = map[string]bool{
 	"github.com/FollowTheProcess/msg.Ftitle": true, "github.com/FollowTheProcess/msg.Ferror": true,
 }
 
+// underListing: the instruction executes only under a listing action's conditions (by its own guards, its function's entry
+// conditions, or because its function is only called from such a place).
+func (c *Ctx) underAtom(in ssa.Instruction, atom string) bool {
+	cond := c.condsAt(in)
+	if atom == "default-listing" {
+		if cond["hastask:default=false"] && cond["notasks=true"] {
+			return true
+		}
+	} else if cond[atom] {
+		return true
+	}
+	return c.listingFuncsUnder(atom)[in.Parent()]
+}
+
+func (c *Ctx) underAnyListing(in ssa.Instruction) bool {
+	for _, a := range []string{"opt:Show=true", "opt:Variables=true", "default-listing"} {
+		if c.underAtom(in, a) {
+			return true
+		}
+	}
+	return false
+}
+
 func ruleST4(c *Ctx) *rule {
 	r := &rule{ID: "ST4", Engine: "E1+E2+E3", Floor: 2,
-		Statement: "in the listing functions, every value obtained by ranging over a map reaches a stream write only through a slice that was sorted (sort.* / slices.Sort*) before the write",
+		Statement: "in the listing actions, every value obtained by ranging over a map reaches a stream write only through a slice that was sorted (sort.* / slices.Sort*) before the write",
 		Necessity: "map iteration order is random; an unsorted listing differs between two invocations on the same spokfile and is not 'sorted by name'"}
-	listing := c.listingFuncs()
 	n := 0
 	for _, f := range c.ModFuncs {
-		if !listing[f] {
-			continue
-		}
 		// only functions whose body ranges over a map
 		var ranges []*ssa.Range
 		for _, b := range f.Blocks {
@@ -1142,7 +1183,7 @@ func ruleST4(c *Ctx) *rule {
 		}
 		fi := c.info(f)
 		for _, site := range callSites(f) {
-			if !streamWriters[calleeName(site.Common())] {
+			if !streamWriters[calleeName(site.Common())] || !c.underAnyListing(site) {
 				continue
 			}
 			sl := c.newSlicer()
@@ -1184,12 +1225,16 @@ func ruleST4(c *Ctx) *rule {
 									break
 								}
 							}
-							if av == ssa.Value(p) && before(s2, site) && !l.body[s2.Block()] {
+							if av == ssa.Value(p) && c.precedes(s2, site) && !l.body[s2.Block()] {
 								sorted = true
 							}
 						}
 					}
 				}
+			}
+			// slices.Sorted(maps.Keys(m)) and friends produce a sorted slice directly
+			if res.hasCall("slices.Sorted") || res.hasCall("slices.SortedFunc") {
+				sorted = true
 			}
 			// the write itself must not be inside the loop that ranges over the map
 			inMapLoop := false
@@ -1214,18 +1259,20 @@ func ruleST4(c *Ctx) *rule {
 			}
 		}
 	}
-	// every task / variable is listed: the sorted names range covers the whole map (collected in a full range over it)
+	// every task / variable is listed: the names come from a range over the whole map (or maps.Keys of it)
 	for _, want := range []struct{ cond, field string }{{"opt:Show=true", "file.SpokFile.Tasks"}, {"opt:Variables=true", "file.SpokFile.Vars"}} {
 		key := "listing under " + want.cond + " ranges over " + want.field
 		found := false
 		for _, f := range c.ModFuncs {
-			if !c.listingFuncsUnder(want.cond)[f] {
-				continue
-			}
 			for _, b := range f.Blocks {
 				for _, in := range b.Instrs {
-					if rg, ok := in.(*ssa.Range); ok && isFieldLoad(rg.X, want.field) {
+					if rg, ok := in.(*ssa.Range); ok && isFieldLoad(rg.X, want.field) && c.underAtom(rg, want.cond) {
 						found = true
+					}
+					if call, ok := in.(*ssa.Call); ok && strings.Contains(calleeName(call.Common()), "maps.Keys") && c.underAtom(call, want.cond) {
+						if len(call.Common().Args) > 0 && isFieldLoad(call.Common().Args[0], want.field) {
+							found = true
+						}
 					}
 				}
 			}
@@ -1233,7 +1280,7 @@ func ruleST4(c *Ctx) *rule {
 		if found {
 			r.ok(key, "-", "the listing is built from the whole map")
 		} else {
-			r.bad(key, "-", "no function on the "+want.cond+" branch ranges over "+want.field)
+			r.bad(key, "-", "nothing on the "+want.cond+" branch ranges over "+want.field)
 		}
 	}
 	return r
@@ -1287,25 +1334,19 @@ func ruleST5(c *Ctx) *rule {
 		Statement: "without task names: on HasTask(\"default\") == true the task named \"default\" is run, on the false edge the task listing is shown",
 		Necessity: "running another task, or listing although a default task exists, is not the documented default action"}
 	c.dispatchRule(r, "default", "")
-	// false edge -> a listing (function that ranges over SpokFile.Tasks and writes to the stream)
+	// false edge -> a listing (a range over SpokFile.Tasks whose values reach the stream)
 	found := false
 	for _, f := range c.ModFuncs {
-		for _, site := range callSites(f) {
-			cond := c.condsAt(site)
-			if !cond["hastask:default=false"] {
-				continue
-			}
-			for _, callee := range c.callees(site) {
-				if !inModule(callee) {
+		for _, b := range f.Blocks {
+			for _, in := range b.Instrs {
+				rg, ok := in.(*ssa.Range)
+				if !ok || !isFieldLoad(rg.X, "file.SpokFile.Tasks") {
 					continue
 				}
-				for _, b := range callee.Blocks {
-					for _, in := range b.Instrs {
-						if rg, ok := in.(*ssa.Range); ok && isFieldLoad(rg.X, "file.SpokFile.Tasks") {
-							found = true
-							r.ok(fmt.Sprintf("%s HasTask(\"default\")==false -> %s", fname(f), fname(callee)), c.ipos(site), "the task listing")
-						}
-					}
+				cond := c.condsAt(rg)
+				if cond["hastask:default=false"] || c.listingFuncsUnder("hastask:default=false")[f] {
+					found = true
+					r.ok(fmt.Sprintf("%s HasTask(\"default\")==false -> task listing", fname(f)), c.ipos(rg), "the tasks are listed")
 				}
 			}
 		}
@@ -1572,23 +1613,66 @@ func ruleRT1(c *Ctx) *rule {
 		} else {
 			r.bad(key, c.ipos(okCall), verdict)
 		}
-		// (e) nil returns dominated by exhaustion
-		for j, ret := range returnsOf(f) {
-			ev := returnedErr(ret)
-			if ev == nil || !isNilConst(ev) {
-				continue
-			}
-			key := fmt.Sprintf("%s return-nil#%d", pfx, j+1)
-			dominated := false
-			for _, g := range fi.necessaryGuards(ret.Block()) {
-				if g.e.from == loop.header && !loop.body[g.e.to()] {
-					dominated = true
+		// (e) success is only returned after every result has been examined: every feasible path from the call to a return
+		// whose error may be nil crosses the exhaustion edge of the results loop
+		{
+			key := pfx + " success-only-after-exhaustion"
+			seen := map[string]bool{}
+			bad := ""
+			var trail []string
+			var dfs func(b *ssa.BasicBlock, from int, done bool, ps *pathState)
+			dfs = func(b *ssa.BasicBlock, from int, done bool, ps *pathState) {
+				if bad != "" {
+					return
+				}
+				trail = append(trail, fmt.Sprintf("%d(%s)", b.Index, c.bpos(b)))
+				defer func() {
+					if bad == "" {
+						trail = trail[:len(trail)-1]
+					}
+				}()
+				if from == 0 {
+					k := fmt.Sprintf("%d|%v|%s", b.Index, done, ps.key())
+					if seen[k] {
+						return
+					}
+					seen[k] = true
+				}
+				if ret, ok := lastInstr(b).(*ssa.Return); ok {
+					ev := returnedErr(ret)
+					if ev != nil && mayBeNil(ps.resolve(ev), map[ssa.Value]bool{}) && !done {
+						bad = "success can be returned at " + c.ipos(ret) + " on a path that has not examined every result"
+					}
+					return
+				}
+				for i2, nx := range b.Succs {
+					_, _, next, feasible := ps.branch(b, i2)
+					if !feasible {
+						continue
+					}
+					nd := done
+					if b == loop.header && !loop.body[nx] {
+						nd = true
+					}
+					dfs(nx, 0, nd, next.enter(nx, b))
 				}
 			}
-			if dominated {
-				r.ok(key, c.ipos(ret), "only after every result has been examined")
+			idx := 0
+			for i2, in := range site.Block().Instrs {
+				if in == ssa.Instruction(site) {
+					idx = i2 + 1
+				}
+			}
+			ps := newPathStateFor(f)
+			// the call succeeded: its error is nil on the paths of interest
+			if ev := errOfCall(site); ev != nil {
+				ps.assume["nil:"+valKey(ev)] = true
+			}
+			dfs(site.Block(), idx, false, ps)
+			if bad == "" {
+				r.ok(key, c.ipos(site), "every path to a successful return crosses the exhaustion of the results loop")
 			} else {
-				r.bad(key, c.ipos(ret), "success is returned on a path that has not examined every result")
+				r.bad(key, c.ipos(site), bad, trail...)
 			}
 		}
 		// the error identifies the task
@@ -1820,6 +1904,7 @@ func ruleRT3(c *Ctx) *rule {
 	mainF := c.fn("cmd/spok", "main")
 	fi := c.info(mainF)
 	n := 0
+	testsProgramErr := false
 	for _, b := range mainF.Blocks {
 		iff, ok := lastInstr(b).(*ssa.If)
 		if !ok {
@@ -1836,19 +1921,16 @@ func ruleRT3(c *Ctx) *rule {
 		}
 		e := edge{b, idx}
 		key := fmt.Sprintf("%s err!=nil#%d", fname(mainF), n)
-		// every path from the edge reaches os.Exit(c != 0) having called a stderr reporter with the error
-		type st struct {
-			b   *ssa.BasicBlock
-			rep bool
-		}
-		seen := map[st]bool{}
+		// every feasible path from the edge reaches os.Exit(c != 0) having called a stderr reporter with the error
+		seen := map[string]bool{}
 		bad := ""
-		var dfs func(blk *ssa.BasicBlock, rep bool)
-		dfs = func(blk *ssa.BasicBlock, rep bool) {
-			if bad != "" || seen[st{blk, rep}] {
+		var dfs func(blk *ssa.BasicBlock, rep bool, ps *pathState)
+		dfs = func(blk *ssa.BasicBlock, rep bool, ps *pathState) {
+			k := fmt.Sprintf("%d|%v|%s", blk.Index, rep, ps.key())
+			if bad != "" || seen[k] {
 				return
 			}
-			seen[st{blk, rep}] = true
+			seen[k] = true
 			for _, in := range blk.Instrs {
 				site, ok := in.(ssa.CallInstruction)
 				if !ok {
@@ -1858,9 +1940,18 @@ func ruleRT3(c *Ctx) *rule {
 				if stderrWriters[name] || (strings.HasPrefix(name, "fmt.Fprint") && usesStderr(site)) {
 					sl := c.newSlicer()
 					sl.depth = 0
-					if sl.run(site.Common().Args...).has(x) {
+					res := sl.run(site.Common().Args...)
+					if res.has(x) || res.has(ps.resolve(x)) {
 						rep = true
 					}
+					for phi := range ps.phi {
+						if res.has(phi) && (ps.resolve(phi) == ps.resolve(x)) {
+							rep = true
+						}
+					}
+				}
+				if name == "log.Fatal" || name == "log.Fatalf" || name == "log.Fatalln" {
+					return
 				}
 				if name == "os.Exit" {
 					code, isC := constInt(site.Common().Args[0])
@@ -1877,11 +1968,19 @@ func ruleRT3(c *Ctx) *rule {
 				bad = "a path from the failure edge leaves main without os.Exit(non-zero): the exit status is 0"
 				return
 			}
-			for _, s := range blk.Succs {
-				dfs(s, rep)
+			for i2, s := range blk.Succs {
+				_, _, next, feasible := ps.branch(blk, i2)
+				if !feasible {
+					continue
+				}
+				dfs(s, rep, next.enter(s, blk))
 			}
 		}
-		dfs(e.to(), false)
+		ps0 := newPathStateFor(mainF)
+		if _, _, next, feasible := ps0.branch(b, idx); feasible {
+			ps0 = next
+		}
+		dfs(e.to(), false, ps0.enter(e.to(), b))
 		_ = fi
 		if bad == "" {
 			r.ok(key, c.bpos(b), "reported on standard error, then os.Exit(non-zero)")
@@ -1892,11 +1991,16 @@ func ruleRT3(c *Ctx) *rule {
 		sl := c.newSlicer()
 		sl.depth = 3
 		res := sl.run(x)
-		k2 := fmt.Sprintf("%s err<-App.Run", fname(mainF))
 		if res.hasCall("(*github.com/FollowTheProcess/cli.Command).Execute") || res.hasCall("(*github.com/FollowTheProcess/spok/cli/app.App).Run") {
-			r.ok(k2, c.bpos(b), "the error of the command's execution")
+			testsProgramErr = true
+		}
+	}
+	if n > 0 {
+		k2 := fmt.Sprintf("%s err<-App.Run", fname(mainF))
+		if testsProgramErr {
+			r.ok(k2, c.pos(mainF.Pos()), "the error of the command's execution is among the errors tested")
 		} else {
-			r.bad(k2, c.bpos(b), "the error tested in main is not the result of executing the command")
+			r.bad(k2, c.pos(mainF.Pos()), "no error tested in main is the result of executing the command")
 		}
 	}
 	if n == 0 {
@@ -1951,7 +2055,7 @@ func appProperties() []*propertySpec {
 			Explanation: "Static analysis of the whole error path: SH1 proves that the interpreter's error becomes either the returned error or Result.Status of the returned result and that the Ok() methods are Status == 0 / conjunctions over full ranges; RT1 proves that every caller of SpokFile.Run ranges over all results testing Ok() unconditionally, that the not-Ok side ends in an error naming the task and that nil is returned only after exhaustion; RT2 proves error propagation on every module call edge between main and Runner.Run; RT3 proves main reports on the real standard error and calls os.Exit with a non-zero constant on every path from the failure edge; CP8 (shared with C10) proves a digest is only recorded under Ok() of the task's own commands.",
 			NotCovered:  []string{"the exit status computed inside mvdan.cc/sh", "flag combinations rejected by the CLI library before App.Run"},
 			Assumptions: []string{"interp.IsExitStatus decodes exactly the exit-status errors of (*interp.Runner).Run", "msg.Error writes to the process's standard error; os.Exit never returns"},
-			Rules:       []func(*Ctx) *rule{ruleSH1, ruleRT1, ruleRT2, ruleRT3, ruleRT4, ruleCP8}},
+			Rules:       []func(*Ctx) *rule{ruleSH1, ruleRT1, ruleRT2, ruleRT3, ruleRT4, ruleGR6, ruleCP8}},
 		{ID: "C12", Title: "--clean removes exactly the declared outputs and the cache, never the project",
 			Explanation: "Static analysis of every os.Remove/RemoveAll call site of the module with its interprocedural entry conditions (greatest fixpoint over the call graph of the Options.*/HasTask guards): CL1 classifies every root of the removed path by backward slicing (only output fields, their Vars/Globs indirections and SpokFile.Dir + cache constants are allowed); CL2 proves each output field and the cache directory reach the removal, globs through their expansion; CL3 proves a test relating each removed path to SpokFile.Dir with an erroring side precedes the removal (at the sink or as a validate-all pass that dominates it); CL4 proves the entry conditions Clean == true and HasTask(\"clean\") == false and that the true side runs the task named \"clean\".",
 			NotCovered:  []string{"that the containment predicate itself is correct for every path string", "directories matched by output globs"},
@@ -1966,6 +2070,22 @@ func appProperties() []*propertySpec {
 			Explanation: "ST1 proves that the only direct standard-output write reachable from App.Run prints Results.JSON() under Options.JSON; ST6 that JSON() marshals the untouched result of SpokFile.Run with the expected field tags; ST2 that --quiet/--json replace App.stream by the Null stream before anything can read it; ST3 that stdout/stderr capture buffers are paired with the right stream and result fields and Result.Cmd is the executed text; ST4 that listings collect map keys, sort them and only then write; ST5 the default dispatch; GR6 (shared with C03) gives one result per task in execution order.",
 			NotCovered:  []string{"encoding/json's rendering", "tabwriter layout", "docstring text (value-level)"},
 			Assumptions: []string{"fmt.Println writes to the process's standard output; io.Discard discards; io.MultiWriter duplicates writes to all its writers"},
-			Rules:       []func(*Ctx) *rule{ruleST1, ruleST2, ruleST3, ruleST4, ruleST5, ruleST6, ruleST7, ruleGR6, ruleRT4}},
+			Rules:       []func(*Ctx) *rule{ruleST1, ruleST2, ruleST3, ruleST4, ruleST5, ruleST6, ruleST7, ruleST8, ruleGR6, ruleRT4}},
 	}
+}
+
+// writesToOsStdout: the first argument of a Fprint-style call is os.Stdout itself.
+func writesToOsStdout(site ssa.CallInstruction) bool {
+	args := site.Common().Args
+	if len(args) == 0 {
+		return false
+	}
+	for _, o := range origins(args[0]) {
+		if u, ok := o.(*ssa.UnOp); ok && u.Op == token.MUL {
+			if g, ok := u.X.(*ssa.Global); ok && g.Name() == "Stdout" && g.Pkg != nil && g.Pkg.Pkg.Path() == "os" {
+				return true
+			}
+		}
+	}
+	return false
 }
